@@ -139,8 +139,12 @@ def cfg_constants(consts):
     return "\n".join(lines) + "\n"
 
 
-def parse_behaviours(outfile, limit=None):
-    """Extracts the JSON behaviours printed by the Dump invariant."""
+def parse_behaviours(outfile, limit=None, seed=0):
+    """Extracts the JSON behaviours printed by the Dump invariant.
+
+    In simulation mode TLC evaluates the invariant on every successor it generates, so all
+    siblings of the last step are printed: one behaviour per distinct prefix (everything but the
+    last step) is kept, and `limit` behaviours are then sampled uniformly with the seed."""
     res = []
     seen = set()
     with open(outfile, errors="replace") as f:
@@ -152,13 +156,17 @@ def parse_behaviours(outfile, limit=None):
                 s = json.loads('"' + inner + '"')
             except Exception:
                 s = inner.replace('\\"', '"')
-            h = hashlib.md5(s.encode()).digest()
+            # sibling key: the text up to the last step / operation
+            cut = max(s.rfind('{"p":'), s.rfind('{"op":'), s.rfind('{"e":'))
+            key = s[:cut] if cut > 0 else s
+            h = hashlib.md5(key.encode()).digest()
             if h in seen:
                 continue
             seen.add(h)
             res.append(s)
-            if limit and len(res) >= limit:
-                break
+    if limit and len(res) > limit:
+        rnd = random.Random(seed)
+        res = rnd.sample(res, limit)
     return res
 
 
